@@ -359,6 +359,16 @@ def check_edit(src, data, mi, e, presave=False, pre=None):
         allowed = tuple(allowed) + ("chnk",)     # the declared chunk count follows the payload (Generator: no chunk while default)
         inside = [x for x in d01 if x[0].startswith(pref) and not any(x[0][len(pref):].startswith(a) for a in allowed)]
         outside = outside + inside
+    if k == "mm_count":
+        # changing HOW MANY user-defined controllers are exposed leaves the stored values of those exposed before and after alone
+        try:
+            m0 = s0["modules"][mi] if mi is not None else s0["module"]
+            m1 = s1["modules"][mi] if mi is not None else s1["module"]
+            keep = 5 + min(int(m0["options"]["user_defined_controllers"]), int(m1["options"]["user_defined_controllers"]))
+            if m0["controllers"][:keep] != m1["controllers"][:keep]:
+                outside = outside + [(module_path(mi) + ".controllers", m0["controllers"][:keep], m1["controllers"][:keep])]
+        except (KeyError, TypeError, IndexError):
+            pass
     if outside:
         vs.append(C.viol("edit-changes-other-state", dict(key, path=S.generic_path(outside[0][0])),
                          {"diff": S.diff_text(outside)}, case))
@@ -544,7 +554,8 @@ def run(ctx):
             n = len(edits_for_module(mod, ctx.seed))
             for lo in range(0, n, 80):
                 tasks.append((src, ctx.seed, mi, lo, min(n, lo + 80)))
-        if src.get("ctx") == "synth" and "type" in src:
+        is_mm_file = "fixture" in src and not isinstance(obj, Project) and getattr(obj.module, "mtype", "") == "MetaModule"
+        if (src.get("ctx") == "synth" and "type" in src) or is_mm_file:
             # ordered PAIRS of payload edits on one module (k = 2 within the type-specific payload)
             nf = len(payload_edits(modules_of(obj)[0][1], ctx.seed, first_only=True))
             for lo in range(0, nf, 4):
